@@ -1049,13 +1049,15 @@ class MaterialIndexer(Indexer):
                 elif kind == 1: # Chemical group
                     phase, index = index
                     composition = self.group_compositions[key]
-                    self.data[:, chemical_index] = data * composition
+                    self.data[:, chemical_index] = data * composition if get_ndim(data) == 0 else data
                 elif kind == 2: # Nested chemical group
                     phase, index = index
                     sparse_data = self.data
                     group_compositions = self.group_compositions
+                    ndim = get_ndim(data)
                     for n, i in enumerate(index):
-                        sparse_data[:, i] = data[n] * group_compositions[key[n]] if i.__class__ is list else data[n]
+                        value = data[n] if ndim else data
+                        sparse_data[:, i] = value * group_compositions[key[n]] if i.__class__ is list else value
                 else:
                     raise IndexError('invalid index kind')
             else:
